@@ -354,7 +354,8 @@ def _mcb_dict_mutated(E, obj, args, kwargs, st, node):
 
 @contract("rig/machine_control/machine_controller.py::MachineController.boot")
 class ControllerBoot:
-    """with only_if_needed the machine is first asked - through a NEW controller for the same host that gives up after one try - and
+    """with only_if_needed the machine is first asked - through a NEW controller for the same host (how patient it is, is not the
+    statement's business) - and
     left alone when something answers (an answer that is not SpiNNaker's is an error); otherwise (or when nothing answers) the
     machine is booted from the controller's own host and boot port with exactly the options given, and the controller's struct
     dictionary is REPLACED by the one that boot returns: the dictionary it held before - possibly the caller's, possibly shared with
@@ -379,8 +380,8 @@ class ControllerBoot:
                                                                                                   g_led0, result, _trace):
         n_ask = 2 if only_if_needed else 0
         left_alone = only_if_needed and not g_silent
-        return (implies(only_if_needed, len(_trace) >= 2 and _trace[0] == ("controller_made", self.initial_host, ("n_tries", 1))
-                        and _trace[1] == ("asked_quickly", 255, 255, 0))
+        return (implies(only_if_needed, len(_trace) >= 2 and _trace[0][0] == "controller_made" and _trace[0][1] == self.initial_host
+                        and _trace[1][0] == "asked_quickly")
                 and implies(left_alone, g_is_spinnaker and result == False and len(_trace) == 2 and self_post.structs.ident == self.structs.ident)
                 and implies(not left_alone, result == True and len(_trace) == n_ask + 1
                             and _trace[n_ask] == ("boot", self.initial_host, ("boot_port", self.boot_port), ("led0", g_led0))
